@@ -54,3 +54,4 @@ def run(repo, res, tier):
     from .. import apirules as _ap15
     _ap15.rule_f2(repo, res)
     _ap15.rule_f2b(repo, res)
+    _hk15.rule_parse_raise(repo, res)
